@@ -20,7 +20,7 @@ def run_harness(binary, args, timeout=3000):
         try: res = json.load(open(out))
         except Exception: res = None
         os.unlink(out)
-    return dict(rc=rc, stdout=so, stderr=se[-3000:], result=res)
+    return dict(rc=rc, stdout=so, stderr=(se if len(se) <= 6000 else se[:3000] + '\n...\n' + se[-3000:]), result=res)   # head AND tail: a sanitizer's report line comes first, its (long) stack after it
 
 def add_seqx(V, run, name, replay_info):
     r = run['result']
@@ -170,6 +170,7 @@ SWEEP_FLAVOURS = {
     'root-auto-ser':  ['VX_HEAD=1', FEAT['SER']],
     'root-auto-plans': ['VX_HEAD=1', FEAT['PLANS']],            # + a plan walked through every state, outcome callbacks, user data in the state objects
     'peer-auto-plans': ['VX_HEAD=0', FEAT['PLANS']],
+    'root-auto-plans-cap4': ['VX_HEAD=1', FEAT['PLANS'], 'VX_TASKCAP=4'],   # user-chosen task capacity below the state count: per-state bookkeeping must not shrink with it
     'root-auto-hist': ['VX_HEAD=1', FEAT['HIST']],              # + replayTransition(k) from j, and the same k again
 }
 def sweep(V, tier, flavours, budget, ns=None):
@@ -348,6 +349,9 @@ def check_c18(tier):
         jobs.append((('seqx_bitstream.cpp', []), dict(variant=v, access=False, extra=['-w']), 'bitstream', ['--workers=%d' % NCPU, '--skip-bitwidth']))
         jobs.append((('seqx_containers.cpp', ['VX_PART=3']), dict(variant=v, extra=['-w']), 'tasklist', ['--what=tasklist', '--workers=%d' % NCPU]))
         jobs.append((('seqx_containers.cpp', ['VX_PART=1', 'VX_CLO=1', 'VX_CHI=40']), dict(variant=v, extra=['-w']), 'bitarray', ['--what=bitarray', '--workers=%d' % NCPU]))
+        # a task capacity below the state count: indices into the per-state plan bit sets checked against the member arrays' own bounds (g++ bounds-strict sees inside the object)
+        for n in ((10,) if tier == 'quick' else (9, 10, 17, 65)):
+            jobs.append((('sweepx_n.cpp', ['VX_NSTATES=%d' % n, 'VX_HEAD=1', FEAT['PLANS'], 'VX_TASKCAP=4']), dict(variant=v, access=False, extra=['-w', '-ftemplate-depth=2048'] + (['-fsanitize=bounds-strict'] if v == 'asan-gcc' else [])), 'sweep N=%d plans capacity 4' % n, []))
         if v == 'asan-clang': jobs.append((('sweepx_n.cpp', ['VX_NSTATES=250', 'VX_HEAD=1', FEAT['PLANS']]), dict(variant=v, access=False, extra=['-w', '-ftemplate-depth=2048', '-g0']), 'sweep N=250 plans', []))
         for n in ((1, 2, 128, 255) if tier == 'quick' else (1, 2, 3, 9, 64, 127, 128, 129, 255)):
             if tier == 'quick' and n == 255 and v != 'asan-gcc': continue
@@ -523,7 +527,7 @@ def check_c19(tier):
     return V.finish(rule='every switch combination x standards x compilers x header variants of a feature-neutral public-API program is built with the project warning flags and run; all behaviour digests must be equal; on the explorer the complete d<=1 edge sets of a feature-neutral alphabet are compared across feature subsets; amalgamation compared byte for byte')
 
 # configuration-chain probe for the explorer-driven checks whose quantifier names the setting
-vc.POST_HOOKS['C01'] = lambda V, tier: (config_chain(V, {'activation'}), ctor_forms(V))
+
 vc.POST_HOOKS['C02'] = lambda V, tier: config_chain(V, {'limit', 'activation'})
 vc.POST_HOOKS['C04'] = lambda V, tier: config_chain(V, {'limit'})
 vc.POST_HOOKS['C06'] = lambda V, tier: config_chain(V, {'context'})
@@ -536,5 +540,8 @@ def _big_sweep(V, tier, flavours, ns, keep):
     V.violations = V.violations[:before] + [v for v in V.violations[before:] if re.search(keep, v['pred'] + ' ' + v['text'])]
 _old05 = vc.POST_HOOKS.get('C05')
 vc.POST_HOOKS['C05'] = lambda V, tier: _big_sweep(V, tier, ['root-auto'], [8, 17, 128, 129, 255] if tier == 'quick' else [8, 16, 17, 33, 64, 65, 127, 128, 129, 130, 200, 254, 255], r'dispatch-phase|state-data')
-vc.POST_HOOKS['C08'] = lambda V, tier: _big_sweep(V, tier, ['root-auto-plans', 'peer-auto-plans'] if tier == 'thorough' else ['root-auto-plans'], [9, 65, 250, 255] if tier == 'quick' else [2, 8, 9, 16, 17, 64, 65, 128, 129, 248, 249, 250, 254, 255], r'plan|state-data')
-vc.POST_HOOKS['C09'] = lambda V, tier: _big_sweep(V, tier, ['root-auto-plans'], [9, 65, 250, 255] if tier == 'quick' else [2, 8, 9, 16, 17, 64, 65, 128, 129, 248, 249, 250, 254, 255], r'plan|outcome|state-data')
+# C01 on machines beyond the explorer's eight states: every ordered pair (j,k) of a transition, manual enter/exit and load() deliver exit(j) / enter(k) to exactly those states
+vc.POST_HOOKS['C01'] = lambda V, tier: (config_chain(V, {'activation'}), ctor_forms(V), _big_sweep(V, tier, ['root-auto', 'peer-manual-ser'], [9, 17, 40] if tier == 'quick' else [9, 10, 16, 17, 33, 64, 65, 129, 255], r'^(dispatch|dispatch-activity|load-lifecycle|load-activity|initial-state) '))
+def _cap_sweep(V, tier, keep): _big_sweep(V, tier, ['root-auto-plans-cap4'], [9, 17] if tier == 'quick' else [5, 9, 10, 17, 65, 255], keep)
+vc.POST_HOOKS['C08'] = lambda V, tier: _big_sweep(V, tier, ['root-auto-plans', 'peer-auto-plans'] if tier == 'thorough' else ['root-auto-plans'], [9, 65, 250, 255] if tier == 'quick' else [2, 8, 9, 16, 17, 64, 65, 128, 129, 248, 249, 250, 254, 255], r'plan|state-data') or _cap_sweep(V, tier, r'plan|state-data')
+vc.POST_HOOKS['C09'] = lambda V, tier: _big_sweep(V, tier, ['root-auto-plans'], [9, 65, 250, 255] if tier == 'quick' else [2, 8, 9, 16, 17, 64, 65, 128, 129, 248, 249, 250, 254, 255], r'plan|outcome|state-data') or _cap_sweep(V, tier, r'plan|outcome|state-data')
